@@ -87,6 +87,7 @@ Definition lazy_ctx (args : list stage) (c : ctx) (clk : Z) : ctx :=
 Inductive prog :=
 | Done (v : bytes)                                        (* return v *)
 | Fail (v : bytes)                                        (* the constructor reported an error; the stage returns the marker v *)
+| Err (p : prog)                                          (* the constructor reported an error; the stage runs p all the same *)
 | Eval (i : nat) (k : bytes -> prog)                      (* args[i](context) *)
 | EvalSub (i : nat) (v0 v1 : bytes) (k : bytes -> prog)   (* sub.Eval(args[i], v0, v1) *)
 | Touch (s : bytes) (k : prog)                            (* context.GetKey(s), value ignored *)
@@ -98,6 +99,7 @@ Fixpoint interp (mask : nat -> bool) (args : list stage) (p : prog) : stage :=
   match p with
   | Done v => Ret v
   | Fail v => Ret v
+  | Err q => interp mask args q
   | Eval i k => if mask i then Ret [] else bind (nth i args (Ret [])) (fun v => interp mask args (k v))
   | EvalSub i v0 v1 k =>
       if mask i then bind (sub_ctx v0 v1 (nth i args (Ret []))) (fun v => interp mask args (k v)) else Ret []
@@ -123,6 +125,7 @@ Inductive kg {A} : M A -> Prop :=
 Inductive pkg : prog -> Prop :=
 | pkg_done v : pkg (Done v)
 | pkg_fail v : pkg (Fail v)
+| pkg_err p : pkg p -> pkg (Err p)
 | pkg_eval i k : (forall v, pkg (k v)) -> pkg (Eval i k)
 | pkg_evalsub i v0 v1 k : (forall v, pkg (k v)) -> pkg (EvalSub i v0 v1 k)
 | pkg_touch s k : pkg (Touch s k).
@@ -131,6 +134,7 @@ Inductive pkg : prog -> Prop :=
 Inductive ntm : prog -> Prop :=
 | ntm_done v : ntm (Done v)
 | ntm_fail v : ntm (Fail v)
+| ntm_err p : ntm p -> ntm (Err p)
 | ntm_eval i k : (forall v, ntm (k v)) -> ntm (Eval i k)
 | ntm_evalsub i v0 v1 k : (forall v, ntm (k v)) -> ntm (EvalSub i v0 v1 k)
 | ntm_touch s k : ntm k -> ntm (Touch s k)
